@@ -14,7 +14,9 @@
    arriving through the blocking nsync_mu_lock (each call a fresh, never-queued attempt), and a
    mix with a GROUP of two or three reader victims (woken together by every release, so they pass
    the threshold together; the first of them to acquire clears the shared long-wait bit and a
-   barger may get in once more before a straggler re-asserts it: bound + one per other victim).
+   barger may get in once more before a straggler re-asserts it: bound + one per other victim), and a mix
+   in which the second competitor keeps RETURNING FROM A CV WAIT on the mutex by timeout (woken directly from the cv, never
+   transferred to the mutex queue: its re-acquisition is a fresh, never-queued attempt too).
 
    Oracles: the number of times the victim sleeps inside ONE lock call is at most
    LONG_WAIT_THRESHOLD + 2 (the constant is read from the tree under test; checked while it is still inside, by the bargers, and on
@@ -28,7 +30,7 @@
 
 #define BOUND (LONG_WAIT_THRESHOLD + 2)
 static struct {
-	nsync_mu mu;
+	nsync_mu mu; nsync_cv cv;
 	int mix, nbarg, nacq, nvict;
 	int victim_done;            /* number of victims finished */
 	int barger_holds;           /* some barger holds the mutex (set under it) */
@@ -41,7 +43,7 @@ static struct {
 	unsigned max_sleeps;
 	unsigned hist[40];
 } S;
-enum { CV_ACQ = 0, CV_SLEEPS, CV_BARGE_OK, CV_BARGE_FAIL, CV_LONGWAIT_SET, CV_MAX31, CV_FRESH, CV_GROUP_STRAGGLER };
+enum { CV_ACQ = 0, CV_SLEEPS, CV_BARGE_OK, CV_BARGE_FAIL, CV_LONGWAIT_SET, CV_MAX31, CV_FRESH, CV_GROUP_STRAGGLER, CV_CVRET, CV_CVRET_FORCED };
 
 #define READER_MIX (S.mix == 1 || S.mix == 5)
 static int is_victim (int tid) { return (tid < S.nvict); }
@@ -129,7 +131,13 @@ static void barger (int tid) {
 			__atomic_store_n (&S.barger_holds, 0, __ATOMIC_RELEASE);
 			if (reader) RT_OP ("nsync_mu_runlock", nsync_mu_runlock (&S.mu)); else RT_OP ("nsync_mu_unlock", nsync_mu_unlock (&S.mu));
 			__atomic_store_n (&S.window, 1, __ATOMIC_RELEASE);
-		} else { rt_cover (CV_BARGE_FAIL); rt_yield (); }
+		} else {
+			rt_cover (CV_BARGE_FAIL);
+			/* mix 6, Mode B: the try-lock failed on a FREE mutex, i.e. the long-wait bit keeps this thread out while the woken victim has
+			   not run yet: exactly now the competitor asleep on the cv gets its timeout (its turn comes before the victim's) */
+			if (S.mix == 6 && rt_mode_b ()) { uint32_t wd = sc_word (&S.mu.word); if ((wd & MU_LONG_WAIT) != 0 && (wd & SC_MU_ANY_LOCK) == 0) { rt_force_fire (); rt_cover (CV_CVRET_FORCED); } }
+			rt_yield ();
+		}
 		for (v = 0; v < S.nvict; v++) check_overtaken (v);
 		if (overdue (&guard, t0)) rt_fatal ("barger loop did not end");
 	}
@@ -154,7 +162,24 @@ static void fresh_locker (int tid) {
 		if (overdue (&guard, t0)) rt_fatal ("fresh locker loop did not end");
 	}
 }
-static void body (int tid) { if (is_victim (tid)) victim (tid); else if (S.mix == 4 && tid == S.nvict + S.nbarg - 1 && S.nbarg > 1) fresh_locker (tid); else barger (tid); }
+/* mix 6: a competitor that keeps returning from a timed-out cv wait: each return re-acquires the mutex as a thread that has not
+   queued on it (it was woken from the cv by its own deadline) */
+static void cv_returner (int tid) {
+	int guard = 0; int64_t t0 = rt_now_ns ();
+	/* fresh_in_call: a barger that holds the mutex lets this thread, when it is inside a call but awake, take its turn before releasing */
+	__atomic_store_n (&S.fresh_in_call, 1, __ATOMIC_RELEASE);
+	RT_OP ("nsync_mu_lock", nsync_mu_lock (&S.mu));
+	while (__atomic_load_n (&S.victim_done, __ATOMIC_ACQUIRE) < S.nvict) {
+		/* nobody ever signals S.cv: every return is a timeout, woken directly from the cv */
+		S.queued[tid] = 0;
+		RT_OP ("nsync_cv_wait_with_deadline", nsync_cv_wait_with_deadline (&S.cv, &S.mu, rt_deadline_in (rt_mode_b () ? (rt_rand_n (2) ? 300 + (int64_t) rt_rand_n (3000) : 2000000) : 20000 + (int64_t) rt_rand_n (200000)), NULL));
+		rt_cover (CV_CVRET);
+		if (overdue (&guard, t0)) rt_fatal ("cv returner loop did not end");
+	}
+	__atomic_store_n (&S.fresh_in_call, 0, __ATOMIC_RELEASE);
+	RT_OP ("nsync_mu_unlock", nsync_mu_unlock (&S.mu));
+}
+static void body (int tid) { if (is_victim (tid)) victim (tid); else if (S.mix == 4 && tid == S.nvict + S.nbarg - 1 && S.nbarg > 1) fresh_locker (tid); else if (S.mix == 6 && tid == S.nvict + S.nbarg - 1) cv_returner (tid); else barger (tid); }
 
 static int adversary (int self, int forced, const int *run, int n) {
 	static int chain;
@@ -174,25 +199,26 @@ static int adversary (int self, int forced, const int *run, int n) {
 
 static int setup (uint64_t seed) {
 	(void) seed;
-	nsync_mu_init (&S.mu);
-	S.mix = (int) rt_param ("mix", -1); if (S.mix < 0) S.mix = (int) rt_rand_n (6);
+	nsync_mu_init (&S.mu); nsync_cv_init (&S.cv);
+	S.mix = (int) rt_param ("mix", -1); if (S.mix < 0) S.mix = (int) rt_rand_n (7);
 	S.nvict = S.mix == 3 ? 2 : S.mix == 5 ? 2 + (int) rt_rand_n (2) : 1;
 	S.nbarg = 1 + (int) rt_rand_n (2);
 	if (S.mix == 5 && S.nvict == 3) S.nbarg = 1;
 	if (S.mix == 4) S.nbarg = 2;      /* one try-lock barger and one fresh blocking locker */
+	if (S.mix == 6) S.nbarg = 2;      /* one try-lock barger and one thread that keeps returning from timed-out cv waits */
 	S.nacq = 1 + (int) rt_rand_n (2);
-	S.victim_done = 0; S.barger_holds = 0; S.window = 0; S.fresh_in_call = 0; S.fresh_tid = (S.mix == 4) ? S.nvict + S.nbarg - 1 : 0; S.in_call[0] = S.in_call[1] = S.in_call[2] = 0; S.vdone[0] = S.vdone[1] = S.vdone[2] = 0; memset (S.queued, 0, sizeof (S.queued));
+	S.victim_done = 0; S.barger_holds = 0; S.window = 0; S.fresh_in_call = 0; S.fresh_tid = (S.mix == 4 || S.mix == 6) ? S.nvict + S.nbarg - 1 : 0; S.in_call[0] = S.in_call[1] = S.in_call[2] = 0; S.vdone[0] = S.vdone[1] = S.vdone[2] = 0; memset (S.queued, 0, sizeof (S.queued));
 	rt_watch_word (0, &S.mu.word, &word_cb);
 	rt_ev ((uint32_t) (S.mix | S.nbarg << 4 | S.nacq << 8));
 	return (S.nvict + S.nbarg);
 }
 static void check (void) { if ((sc_word (&S.mu.word) & (SC_MU_ANY_LOCK | 2u | MU_LONG_WAIT)) != 0) rt_violation ("final-word", "held", "after every thread finished the mutex word is %#x", sc_word (&S.mu.word)); }
 static void teardown (void) { rt_watch_word (0, NULL, NULL); }
-static void describe (FILE *f) { static const char *const mn[] = { "writer victim / trylock bargers", "reader victim / trylock bargers", "writer victim / rtrylock bargers", "two writer victims / trylock bargers", "writer victim / trylock barger + fresh blocking lockers", "group of reader victims / trylock bargers" };
+static void describe (FILE *f) { static const char *const mn[] = { "writer victim / trylock bargers", "reader victim / trylock bargers", "writer victim / rtrylock bargers", "two writer victims / trylock bargers", "writer victim / trylock barger + fresh blocking lockers", "group of reader victims / trylock bargers", "writer victim / trylock barger + a thread returning from timed-out cv waits" };
 	fprintf (f, "{\"mix\":\"%s\",\"bargers\":%d,\"victim_acquisitions\":%d,\"max_sleeps_in_one_call_so_far\":%u}", mn[S.mix], S.nbarg, S.nacq, S.max_sleeps); }
 static void summary (FILE *f) { int i; fprintf (f, "\"sleeps_histogram\":["); for (i = 0; i < 40; i++) fprintf (f, "%s%u", i ? "," : "", S.hist[i]); fprintf (f, "]"); }
 static void pinit (void) {
 	rt_cover_name (CV_ACQ, "victim_acquisitions"); rt_cover_name (CV_SLEEPS, "victim_sleeps_total"); rt_cover_name (CV_BARGE_OK, "barger_trylock_ok"); rt_cover_name (CV_BARGE_FAIL, "barger_trylock_failed");
-	rt_cover_name (CV_LONGWAIT_SET, "long_wait_bit_set"); rt_cover_name (CV_MAX31, "acquisitions_that_needed_31_or_more_sleeps"); rt_cover_name (CV_FRESH, "fresh_blocking_attempts_in_the_window"); rt_cover_name (CV_GROUP_STRAGGLER, "reader_group_stragglers_overtaken_after_the_bit_was_cleared");
+	rt_cover_name (CV_LONGWAIT_SET, "long_wait_bit_set"); rt_cover_name (CV_MAX31, "acquisitions_that_needed_31_or_more_sleeps"); rt_cover_name (CV_FRESH, "fresh_blocking_attempts_in_the_window"); rt_cover_name (CV_CVRET, "returns_from_timed_out_cv_waits_by_a_competitor"); rt_cover_name (CV_CVRET_FORCED, "cv_timeouts_fired_in_the_window_after_escalation"); rt_cover_name (CV_GROUP_STRAGGLER, "reader_group_stragglers_overtaken_after_the_bit_was_cleared");
 }
 rt_scenario rt_scen = { "starve", "C14", 4, &pinit, &setup, &body, &check, &teardown, &describe, &summary, NULL, &adversary };
